@@ -42,7 +42,9 @@ class IntegerLattice(AbstractLattice):
                 ids = np.roll(idx, s, axis=d)
                 if self.pbc[d]:
                     for (i, j) in zip(idx.reshape(-1), ids.reshape(-1)):
-                        adj[i, j] = 1
+                        # a periodic axis of extent 1 wraps a site onto itself
+                        if i != j:
+                            adj[i, j] = 1
                 else:
                     # single out axis `d`
                     seld = (math.prod(self.shape[:d]), self.shape[d], math.prod(self.shape[d+1:]))
